@@ -115,4 +115,14 @@ theorem upd_other {α : Type} (f : Nat → Option α) (k : Nat) (x : Option α) 
     upd f k x i = f i := by
   simp [upd, h]
 
+/-- every non-empty predicate on ℕ has a least element -/
+theorem exists_least (P : Nat → Prop) : ∀ n, P n → ∃ m, P m ∧ ∀ k, P k → m ≤ k := by
+  intro n
+  induction n using Nat.strongRecOn with
+  | _ n ih =>
+    intro hn
+    by_cases h : ∃ k, k < n ∧ P k
+    · obtain ⟨k, hk, hpk⟩ := h; exact ih k hk hpk
+    · exact ⟨n, hn, fun k hk => Nat.le_of_not_lt (fun hlt => h ⟨k, hlt, hk⟩)⟩
+
 end PyatvModel.C03
